@@ -12,7 +12,7 @@ objects, each under its own script.
 
 With T = concatenation of the payloads handed to tx() so far, after EVERY service call of the monitored end:
   conservation   T == bytes accepted by the real send() calls + bytes(txbs)          (nothing lost / duplicated / reordered)
-  receive        rxbs == bytes returned by the real recv() calls, and a prefix of what the far side's kernel accepted
+  receive        rxbs == bytes returned by the real recv() calls, and a prefix of what the far side has written so far
 after every read of the far side:
   prefix         far-side received bytes are a prefix of T
 when the schedule is over: keep servicing; the run ends when everything is delivered or when NOTHING (no byte, no
@@ -65,7 +65,7 @@ PEAK_COUNTERS = ("peak_finish_rounds", "peak_payload_bytes")
 ROLES = ["Client", "ClientTls", "Remoter", "RemoterTls"]
 STALL = 60          # consecutive rounds in which nothing at all moved => the connection is not making progress
 CONNECT_ROUNDS = 400
-NCASES = {"quick": 660, "thorough": 21000}
+NCASES = {"quick": 2400, "thorough": 24000}
 
 
 # --------------------------------------------------------------------------
@@ -156,8 +156,8 @@ def gen_case(rng, tier, flavor, role):
     else:  # pressure: the kernel makes the partial sends
         big = rng.choice([1 << 20, 1 << 20, 600000]) if tier == "thorough" else rng.choice([1 << 18, 1 << 18, 1 << 20])
         case["bs"] = rng.choice([1024, 8096])
-        case["sndbuf"] = rng.choice([1024, 4096])
-        case["peer_rcvbuf"] = rng.choice([1024, 4096])
+        case["sndbuf"] = rng.choice([4096, 16384])       # (the kernel doubles these; below ~4 kB Linux' silly-window
+        case["peer_rcvbuf"] = rng.choice([4096, 16384])  #  avoidance leaves progress to the persist timer: seconds per kB)
         ops = [["tx", ["rnd", rng.getrandbits(32), big]]]
         if rng.random() < 0.5:
             ops.append(["pw", ["rnd", rng.getrandbits(32), rng.choice([1 << 16, 1 << 18])]])
@@ -200,7 +200,7 @@ def materialize(p):
 
 
 def mk_script(spec, label):
-    return sh.Script(send=spec.get("send"), recv=spec.get("recv"), handshake=spec.get("hs"), label=label)
+    return sh.Script(send=spec.get("send"), recv=spec.get("recv"), handshake=spec.get("hs"), label=label, nodelay=True)
 
 
 def mk_wl():
@@ -253,8 +253,10 @@ class RawFar:
     def received(self):
         return self.peer.inb
 
-    def accepted(self):
-        return self.peer.accepted
+    def written(self):
+        # NOT peer.accepted: a TLS write that is still in WANT_WRITE has already put whole records on the wire,
+        # so the hio side may legitimately hold bytes the far side's send() has not "returned" yet.
+        return self.peer.written
 
     def pending(self):
         return len(self.peer.out)
@@ -281,8 +283,8 @@ class HioFar:
     def received(self):
         return self.mon.end.rxbs
 
-    def accepted(self):
-        return self.mon.script.sent
+    def written(self):
+        return self.mon.T
 
     def pending(self):
         return len(self.mon.end.txbs)
@@ -346,9 +348,9 @@ class Mon:
                           f"first difference at offset {off} (rxbs {bytes(rxbs[off:off + 16])!r}, recv {bytes(recvd[off:off + 16])!r})",
                           trace=self.trace())
             raise Abort()
-        if self.far is not None and not self.s_rxw.check(rxbs, self.far.accepted()):
+        if self.far is not None and not self.s_rxw.check(rxbs, self.far.written()):
             ctx.violation("rx-not-prefix:" + role,
-                          f"rxbs ({len(rxbs)} B) is not a prefix of what the far side wrote ({len(self.far.accepted())} B)",
+                          f"rxbs ({len(rxbs)} B) is not a prefix of what the far side wrote ({len(self.far.written())} B)",
                           trace=self.trace())
             raise Abort()
 
@@ -372,7 +374,7 @@ class Mon:
         calls = self.script.calls
         if self.end.txbs and calls["send"] == before["send"]:
             return "tx"
-        if len(self.end.rxbs) < len(self.far.accepted()) and not self.far.pending() and calls["recv"] == before["recv"]:
+        if len(self.end.rxbs) < len(self.far.written()) and not self.far.pending() and calls["recv"] == before["recv"]:
             return "rx"
         return None
 
@@ -562,8 +564,8 @@ def _run(case, ctx, cl):
             far_pump(op[1])
 
     # keep servicing: everything must arrive
-    total = len(near.T) + len(far.accepted()) + far.pending()
-    maxr = 600 + total // 128
+    total = len(near.T) + len(far.written())
+    maxr = 2000 + total // 32
     stall = 0
     rounds = 0
     done = False
@@ -574,7 +576,7 @@ def _run(case, ctx, cl):
         if pair:
             mons[1].after_far_read()
         far_pump()
-        done = near.tx_done() and not far.pending() and len(near.end.rxbs) == len(far.accepted())
+        done = near.tx_done() and not far.pending() and len(near.end.rxbs) == len(far.written())
         if done:
             break
         sig = (near.progress(), len(far.received()), far.pending(), mons[1].progress() if pair else None)
@@ -596,14 +598,14 @@ def _run(case, ctx, cl):
                                   f"{m.role} made no {'send' if why == 'tx' else 'recv'} call in {STALL} consecutive service rounds "
                                   f"although the connection is healthy and bytes are outstanding: txbs={len(end.txbs)} B, "
                                   f"accepted={len(m.script.sent)} of T={len(m.T)} B, rxbs={len(end.rxbs)} of "
-                                  f"{len(m.far.accepted())} B written by the far side, cutoff={end.cutoff}, "
+                                  f"{len(m.far.written())} B written by the far side, cutoff={end.cutoff}, "
                                   f"connected={getattr(end, 'connected', None)}", trace=m.trace())
                     raise Abort()
             if not far.healthy():
                 raise RuntimeError("harness: far side of the connection failed")
             if stall >= 8 * STALL:
                 raise RuntimeError("harness: kernel did not move outstanding bytes although both ends keep trying")
-        tk.wait_any(far.socks() + [near.end.cs], 5)
+        tk.wait_any(far.socks() + [near.end.cs], 5 if stall < STALL else 20)
     ctx.peak("peak_finish_rounds", rounds)
     if not done:
         raise RuntimeError(f"harness: round budget {maxr} used up while bytes were still moving")
